@@ -266,4 +266,47 @@ func init() {
 		Assume:  append([]string{"all media types are served by the recording codec (protobuf-go's real codecs cannot run on fake messages)"}, driverAssume...),
 		Outside: []string{"the HTTP/2 server, ws.UpgradeHTTP and WebSocket frame I/O", "user-supplied interceptors", "real protobuf / JSON codecs and gzip"},
 	})
+
+	regAssume := append([]string{"descriptor discovery is stubbed: the reflection stream is a fake; under the engine proto.Unmarshal(FileDescriptorProto) / protodesc.NewFile / sha256 / newResolver are replaced (file name as opaque bytes, fake descriptors, injective hash) while the native replay uses real descriptor bytes and protobuf-go", "RegisterConn is exercised as its body minus the dial (clone, addConnHandler, storeState, CloseSend)"}, driverAssume...)
+	addProp(&PropSpec{
+		ID: "C11",
+		Harnesses: []HarnessSpec{
+			{Name: "VerifH_registry", Covers: []string{"register-local", "register-local-twice", "register-conn", "reregister-unchanged", "reregister-changed", "drop-conn", "drop-unknown", "failed-registration", "live-route", "dead-method"}},
+		},
+		Bounds: map[string]string{
+			"quick":    "every history of 1..3 operations from {RegisterService(A), RegisterService(B), RegisterConn(c1:{A}), RegisterConn(c1:{B}), RegisterConn(c2:{A,B}), DropConn(c1), DropConn(c2), DropConn(unknown), failing registration}; after every step all 4 methods are checked against the reference model (backend counts, dropped handlers gone, handler pick, HTTP route of every live method); services share trie nodes (kind-* binding on an interior node, additional bindings)",
+			"thorough": "histories of 1..4 operations",
+		},
+		Assume:  regAssume,
+		Outside: []string{"invocation of proxied handlers (grpc-go client transports)", "longer histories", "a stale HTTP route of a method without backends may remain (the request then ends Unimplemented, which the property allows)"},
+	})
+	addProp(&PropSpec{
+		ID: "C12",
+		Harnesses: []HarnessSpec{
+			{Name: "VerifH_registry", Covers: []string{"failed-registration", "reregister-unchanged", "drop-unknown", "register-conn", "drop-conn"}},
+			{Name: "VerifH_registry_snapshot", Covers: []string{"dispatched", "not-dispatched"}},
+		},
+		Bounds: map[string]string{
+			"quick":    "sequential premises of the copy-on-write argument: in every history of C11 the snapshot published before each writer has an unchanged structural fingerprint (printed trie, handler counts, connection count) after it, a failing / no-op operation leaves the routing state unchanged (a failed registerService leaves the pointer identical); relational: for 3 populated states x 6 second writers, an old snapshot resolves every ASCII path of 1..6 bytes x {GET, PUT} identically before and after the writer",
+			"thorough": "paths of 1..8 bytes, histories of 1..4",
+		},
+		Assume:  regAssume,
+		Outside: []string{"the interleaving quantifier itself and data-race freedom: the engine has no goroutine semantics, so removing Mux.mu or replacing the atomic publication by a plain field would NOT be detected (N/A part, stated)"},
+	})
+	addProp(&PropSpec{
+		ID: "C13",
+		Harnesses: []HarnessSpec{
+			{Name: "VerifH_pool_alias", Covers: []string{"two-requests"}},
+		},
+		Bounds: map[string]string{
+			"quick":    "two HttpBody requests (receive + reply) processed back to back over larking's byte pool with independent symbolic bodies of 1..4 bytes; the pool hands the second request the buffer recycled by the first",
+			"thorough": "same",
+		},
+		Assume:  []string{"sync.Pool model: Get returns the most recently Put object (the adversarial choice for aliasing), else New()", "sequentialised: the second request starts after the first has completed"},
+		Outside: []string{"data-race freedom, true concurrency, gzip pools, the proxy's stream pumps: no goroutine model (N/A part, stated); only pooled-buffer aliasing across consecutive requests is decided"},
+	})
+	ext("C16", "registration atomicity through the real registerService: a failing registration leaves the published snapshot pointer-identical and the routing state unchanged (histories of C11)",
+		HarnessSpec{Name: "VerifH_registry", Covers: []string{"failed-registration", "register-local-twice"}})
+	ext("C19", "config-rule vs annotation: 3 rule shapes x every ASCII path of 1..8 bytes x {GET, POST}, two muxes built through NewMux(ServiceConfigOption) + registerService vs annotation + registerService",
+		HarnessSpec{Name: "VerifH_config_vs_annotation", Covers: []string{"dispatched", "dispatched-by-rule", "not-dispatched"}})
 }
